@@ -5,15 +5,15 @@ SPEC = {
     "required_theorems": ["blocks_within_file", "secondary_never_seeks_back", "fixed_refines_unfixed_chunk",
                           "fixed_refines_unfixed_secondary", "unfixed_chunk_panics_at_witness",
                           "unfixed_secondary_panics_at_witness", "unfixed_allocates_beyond_file_at_witness", "intact_slicing",
-                          "intact_roundtrip"],
-    "streams": [{"name": "immcorrupt", "quick": 50, "thorough": 1200, "timeout": 3000}],
+                          "intact_roundtrip", "damaged_db_total", "intact_db_from_files"],
+    "streams": [{"name": "immcorrupt", "quick": 60, "thorough": 1200, "timeout": 3000}],
     "rule": "fault enumeration: for base chunks of 1..6 tiny synthetic blocks (chunk::read_blocks does not decode; empty blocks and "
             "empty relative slots included) EVERY truncation length of the primary, of the secondary and of the chunk file (quick: "
             "2 bases ~ 400 files; thorough: 12); then per generated case an intact chunk followed by 3..8 damaged copies: a "
             "secondary block_offset set to 0 / 1 / 55 / 57 / 2^64-1 / 2^64-2 / random / near end of file, two offsets swapped, a "
             "primary offset set to boundary or small values (entries closer than 56 bytes, going backwards), random bytes in either "
             "index; every fifth case damages one file (truncation, offset overwrite, garbage) of a 2..3-chunk database of real "
-            "blocks and reads it through read_blocks, get_tip and read_blocks_from_point (oracle only). Every case runs in a child "
+            "blocks and reads it through read_blocks, get_tip and read_blocks_from_point — once judged by the oracle only (`dbread`) and once with all files spelled out on the op line (`dbx`: primary and secondary bytes, chunk length, the real blocks by hash) and every read compared with the composed Lean model (file readers + directory level + a prefix-tolerant block decoder). Every case runs in a child "
             "process (an abort is an outcome). distinct = sha1 of op text; non-trivial = in one case some damaged file still "
             "yielded the blocks before the damage and some read reported an error",
     "trusted_base": [
@@ -22,8 +22,9 @@ SPEC = {
         "position; tie = stream `immcorrupt`: the three files of a chunk are written byte for byte, chunk::read_blocks is run on "
         "them and the item list (block bytes / error class per item, or open failure) is compared with the model's",
         "outside the model: OS read errors other than end of file, the u32 relative-slot counter of the primary reader, "
-        "BufReader buffering, the directory level (read_blocks over several chunks with a damaged file is sampled by the oracle "
-        "only: no panic / abort, real blocks only in chain order)",
+        "BufReader buffering. The directory level over damaged files IS modelled (Model/ImmutableDbFiles.lean = Model/ChunkReader + "
+        "Model/ImmutableDb with chunks that fail to open) and tied by the `dbx` ops; MultiEraBlock::decode is a parameter of that "
+        "model, instantiated in the stream by `a slice decodes iff it starts at a block and holds all of it`",
     ],
     "assumptions": [
         "a corrupted file is a file with other bytes or fewer bytes; files that vanish or change while being read are not considered",
@@ -36,5 +37,5 @@ SPEC = {
                    "property, secondary::Reader::next `current as u64 - start` (panic reading label=prim-offset / prim-offset-small / "
                    "prim-random-bytes, also through read_blocks at database level). Both repaired by fix commits in pallas-hardano; "
                    "the model is the repaired code, the unrepaired readers are kept as Props.C43.Unfixed with proved panics / unbounded "
-                   "allocation at witnesses and a proof that the repairs change nothing where the old code finished. Self-tests run: (1) the length check after the bounded read dropped (a short middle block handed out as Ok) -> exit 1, VIOLATION damaged-block-returned-as-ok label=trunc-chunk with a one-op replay; (2) error message text changed -> quiet.",
+                   "allocation at witnesses and a proof that the repairs change nothing where the old code finished. Self-tests run: (1) the length check after the bounded read dropped (a short middle block handed out as Ok) -> exit 1, VIOLATION damaged-block-returned-as-ok label=trunc-chunk with a one-op replay; (2) error message text changed -> quiet. Composed model: (3) read_blocks skipping a chunk that fails to open instead of stopping (map_while -> filter_map; no clause of the property broken) -> exit 1 with a correspondence replay (`xreadall` on a database whose oldest primary index is empty), no-failing-input-found; (4) the comparator unwrapping a damaged first block -> exit 1, VIOLATION panic reading label=db-trunc-chunk level=db.",
 }
